@@ -58,9 +58,19 @@ P("C08", "translation_validation", "Lean model vs code differential + rule-table
   TV_NOTE + "Known finding K3 set aside by class predicate.",
   rule=NONTRIV + "bases x arguments; non-trivial = non-empty argument", design_ref="§5 C08")
 
-P("C09", "translation_validation", "Lean model vs code differential + clause oracle",
-  "parent / ancestors / pop against the model; clauses on the implementation (and std for Unix).",
-  TV_NOTE, rule=NONTRIV + "non-trivial = prefix or >= 2 components", design_ref="§5 C09")
+P("C09", "proof", "Lean 4 theorems (law B of the back parser, byte-prefix lemma) + model/code correspondence; Windows byte-level re-parse clause by correspondence only",
+  "Proved in Lean for both encodings and every byte string: parent is absent exactly when the component list is empty "
+  "or ends in a root or prefix (parent_none_iff); otherwise the state it returns holds the original components without "
+  "the last (parent_state_comps), the returned bytes are a leading slice of the input (parent_is_prefix) and pop "
+  "truncates to exactly that slice, false/unchanged otherwise (pop_eq_parent). For Unix the parent's bytes re-parse to "
+  "the components minus the last and agree with StdSpec (unix_parent_comps, unix_parent_vs_std).",
+  "Partial: for Windows, that the returned *bytes* re-parse to those components (stability of the prefix parse under "
+  "truncation) is not proved; it is checked by the correspondence and the oracle on every run. ancestors is modelled "
+  "with fuel |b|+1 (adequacy of the fuel is checked by correspondence, not proved). UTF-8/typed forms: oracle. "
+  "Model=code by differential testing.",
+  theorems=["TP.C09.parent_none_iff", "TP.C09.parent_state_comps", "TP.C09.parent_is_prefix", "TP.C09.pop_eq_parent",
+            "TP.C09.unix_parent_comps", "TP.C09.unix_parent_vs_std"],
+  rule=NONTRIV + "non-trivial = prefix or >= 2 components", design_ref="§5 C09")
 
 P("C10", "translation_validation", "Lean model vs code differential + clause oracle",
   "strip_prefix / starts_with / ends_with / join against the model; clauses on pairs of well-formed paths.",
@@ -71,9 +81,16 @@ P("C11", "translation_validation", "Lean model vs code differential + fold oracl
   "normalize bytes against the model; fold / idempotence / separator clauses on the implementation.",
   TV_NOTE, rule=NONTRIV + "non-trivial = contains `.` or `..` and >= 2 components", design_ref="§5 C11")
 
-P("C12", "translation_validation", "Lean model vs code differential + clause oracle",
-  "file_name / stem / extension / set_file_name against the model; clauses on the implementation.",
-  TV_NOTE + "Known finding K3 set aside by class predicate.",
+P("C12", "proof", "Lean 4 theorems (law B; list lemma on the dot split) + model/code correspondence; replacement clause by oracle",
+  "Proved in Lean for both encodings: file_name is the last component iff it is a normal name (file_name_iff_last_normal), "
+  "no file name means no stem and no extension, and stem/extension split the name at its last dot with the `..` and "
+  "leading-dot exceptions so that stem + '.' + extension reproduce the name (stem_ext_split, leading_dot_no_extension; "
+  "rsplitDot_spec is the underlying pure list lemma).",
+  "Partial: the with_file_name / set_file_name clause (new file name = n, parent unchanged, or join when there was no "
+  "file name) is decided by the oracle and the correspondence, not by a theorem (it needs the append lemma for both "
+  "encodings; Windows is additionally subject to known finding K3). Model=code by differential testing.",
+  theorems=["TP.C12.file_name_iff_last_normal", "TP.C12.no_file_name_no_stem_ext", "TP.C12.stem_ext_split", "TP.C12.leading_dot_no_extension", "TP.rsplitDot_spec"],
+  modules=["TypedPathVerif.Lemmas.DotSplit"],
   rule=NONTRIV + "names over {. a b} exhaustively; non-trivial = file name containing a dot / path with a file name", design_ref="§5 C12")
 
 P("C13", "translation_validation", "Lean model vs code differential + std oracle",
@@ -96,10 +113,19 @@ P("C16", "translation_validation", "Lean model vs code differential + clause ora
   TV_NOTE + "Known finding K4 set aside by class predicate.",
   rule=NONTRIV + "strings over {\\ / : . a}, forbidden-byte alphabet, prefix seeds; non-trivial = prefix or >= 2 components", design_ref="§5 C16")
 
-P("C17", "translation_validation", "generated tables + Lean model vs code differential + definition oracle",
-  "The forbidden-byte tables are regenerated from the source on every run; is_valid and the checked verdict are compared "
-  "with the model and with the definition for all 256 byte values in three positions.",
-  TV_NOTE, rule="all 256 byte values x 3 positions x several prefixes + small domains; non-trivial = invalid or >= 2 components", design_ref="§5 C17")
+P("C17", "proof", "tables regenerated from the source + Lean 4 theorems (decide over the whole tables, validity lemmas) + correspondence",
+  "The four forbidden tables and the separator/dot constants are regenerated from /repo on every run and proved equal "
+  "(as sets) to the documented ones by kernel evaluation (unix_forbidden_eq, windows_forbidden_eq, char_tables_eq, "
+  "constants_eq); on top of that: a component is valid iff it is not a normal name with a documented forbidden byte "
+  "(comp_valid_iff), a path is valid iff all its normal components are clean (path_valid_iff), and the InvalidFilename "
+  "verdict is returned only if some name is invalid and never for a valid path (invalid_verdict_sound, "
+  "valid_agrees_checked, invalid_verdict_complete).",
+  "gen/constants.py (regex extraction) is trusted to copy the tables; that is_valid/push_checked in Rust consult these "
+  "tables the way the model does is validated by the correspondence (all 256 byte values in three positions) and the "
+  "UTF-8 counterparts by the oracle.",
+  theorems=["TP.C17.unix_forbidden_eq", "TP.C17.windows_forbidden_eq", "TP.C17.char_tables_eq", "TP.C17.constants_eq",
+            "TP.C17.comp_valid_iff", "TP.C17.path_valid_iff", "TP.C17.invalid_verdict_sound", "TP.C17.valid_agrees_checked", "TP.C17.invalid_verdict_complete"],
+  rule="all 256 byte values x 3 positions x several prefixes + small domains + multi-byte characters with forbidden low bytes; non-trivial = invalid or >= 2 components", design_ref="§5 C17")
 
 P("C18", "other", "catch_unwind + watchdog exploration; Lean totality of the model",
   "Every model function is a total Lean function (accepted by the termination checker, no `partial`, no fuel that runs out); "
